@@ -201,8 +201,8 @@ def main(chk, replay=None):
             handed = len({tuple(e["order"]) for e in tr["events"] if e["ev"] == "enum"})
             if handed < tr["norders"]:
                 short.append((tr["id"], handed, tr["norders"]))
-    if not replay and (enums == 0 or short):
-        raise core.MachineryError("C07: the substituted os.listdir did not hand out every permutation: %s" % (short[:3] or "never called"))
+    # (the guard on `short` only gates a PASS, below: code that stops enumerating - a listing kept between requests - is
+    # for TLC to judge first; a run that is rejected by a property clause is a verdict, not a machinery failure)
     # 4. TLC judges every trace
     tv = dl.validate_parallel("TraceC07", "TraceC07_run.cfg",
                              [{"id": tr["id"], "init": tr["init"], "events": tr["events"]} for tr in traces], extra_files=extra)
@@ -219,6 +219,8 @@ def main(chk, replay=None):
                       {"rejected_at_event": rj["at"], "event": ev, "first_listing": next((e for e in tr["events"] if e["ev"] == "response"), None),
                        "enum_of_rejected": tr["events"][rj["at"] - 4] if rj["at"] >= 4 else None})
     chk.note_drift([x for x in tv["drift"] if x["index"] not in rejected])
+    if not replay and not tv["rejected"] and (enums == 0 or short):
+        raise core.MachineryError("C07: the substituted os.listdir did not hand out every permutation: %s" % (short[:3] or "never called"))
     for i, tr in enumerate(traces):
         tr["ok"] = i not in rejected
         lst = next((e["listing"] for e in tr["events"] if e["ev"] == "response"), [])
